@@ -1395,6 +1395,18 @@ def c06_drain(ctx):
                     problems.append('a suspended job can leave drain_queue without the real waker being installed in the DrainWaker')
             else:
                 problems.append('job execution site not found')
+            # what is installed wakes the queue itself (so that a pool thread or a waiter can take the queue over when the polling task
+            # went away) as well as the polling task
+            from .ordq import backward_slice
+            for wb, t in ww:
+                if len(t['args']) < 2:
+                    problems.append('wake_with (%s) receives no waker' % dq.loc(wb))
+                    continue
+                adts, cals = backward_slice(dq, t['args'][1])
+                if 'desync::WakeQueue' not in adts:
+                    problems.append('the waker installed at %s is not built from a WakeQueue: when the job is woken only the polling task hears of it, and if that task has dropped the future the parked queue is never resumed' % dq.loc(wb))
+            if ww and not any('core::task::wake::Context::waker' in backward_slice(dq, t['args'][1])[1] for wb, t in ww if len(t['args']) > 1):
+                problems.append('no installed waker includes the polling task\'s own waker: the task that parked the queue for itself is never told to poll again')
             if problems:
                 out.append(bad(R, key, '; '.join(problems) + ': a wake-up arriving in between is lost or acts on a queue that is not parked yet', fn=dq.name))
             else:
